@@ -190,6 +190,12 @@ func TestVerif_C16_h1rewrite(t *testing.T) {
 						human += fmt.Sprintf(" ORACLE (write %d): %s", a+1, why)
 					}
 				}
+				// the method and the User-Agent value are written raw: with CR LF in them the head cannot be
+				// split into lines reliably (the model still judges those cases byte for byte)
+				rawCRLF := strings.ContainsAny(tc.method, "\r\n") || (len(tc.header["User-Agent"]) > 0 && strings.ContainsAny(tc.header["User-Agent"][0], "\r\n"))
+				if rawCRLF {
+					continue
+				}
 				// the neighbours of the bookkeeping keys are ordinary headers: exact spelling, every value once
 				for _, k := range nb {
 					got := 0
@@ -203,11 +209,9 @@ func TestVerif_C16_h1rewrite(t *testing.T) {
 						human += fmt.Sprintf(" ORACLE (write %d): header %q written %d time(s), the caller gave %d value(s)", a+1, k, got, len(tc.header[k]))
 					}
 				}
-				if !strings.ContainsAny(tc.method, "\r\n") {
-					if good, why := c16ResendOracle("same", wires[0], wires[a], order); !good {
-						ok = false
-						human += fmt.Sprintf(" ORACLE (write %d vs write 1): %s", a+1, why)
-					}
+				if good, why := c16ResendOracle("same", wires[0], wires[a], order); !good {
+					ok = false
+					human += fmt.Sprintf(" ORACLE (write %d vs write 1): %s", a+1, why)
 				}
 			}
 		}
@@ -338,7 +342,7 @@ func c16XBag(pairs [][2]string) map[string][]string {
 // them, exactly as the caller gave them.
 func TestVerif_C16_xproto(t *testing.T) {
 	s := c01New(t, "C16", "xproto",
-		"one request description (client-level + request-level headers in all spellings as in lane resend, PLUS 1..3 request headers next to the bookkeeping keys: \"__\"-prefixed names, proper prefixes / suffixes / infixes / extensions / one-byte changes of __header_order__ and __pseudo_header_order__, lower / upper / mixed case, 1..2 values; order list none / request / client / both, sometimes naming the neighbours; pseudo-header order; cookies; body) built three times with the same calls and sent over HTTP/1.1 to the raw TCP peer (exact lines), over HTTP/2 (TLS, x/net server) and HTTP/3 (quic-go) to origins recording the header map; oracle-judged: for every name the stacks do not own, the value multiset (values without surrounding blanks) is the same on the three wires; every neighbour name arrives on each wire with exactly the caller's values; no bookkeeping key on any wire; non-trivial = all three wires observed")
+		"one request description (client-level + request-level headers in all spellings as in lane resend, PLUS 1..3 request headers next to the bookkeeping keys: \"__\"-prefixed names, proper prefixes / suffixes / infixes / extensions / one-byte changes of __header_order__ and __pseudo_header_order__, lower / upper / mixed case, 1..2 values; order list none / request / client / both, sometimes naming the neighbours; pseudo-header order; cookies; body) built three times with the same calls and sent over HTTP/1.1 to the raw TCP peer (exact lines), over HTTP/2 (TLS, x/net server) and HTTP/3 (quic-go) to origins recording the header map; model-judged for the HTTP/2 and HTTP/3 origins (c16xbag: the caller fields the model's field list holds for the request handed to the transport = what the origin's handler sees; HTTP/1.1 bytes are model-judged by lanes resend / stale) + oracle: for every name the stacks do not own, the value multiset (values without surrounding blanks) is the same on the three wires; every neighbour name arrives on each wire with exactly the caller's values; no bookkeeping key on any wire; non-trivial = all three wires observed")
 	log.SetOutput(io.Discard)
 	defer log.SetOutput(os.Stderr)
 	peer := c16StartScriptPeer(t)
@@ -381,7 +385,8 @@ func TestVerif_C16_xproto(t *testing.T) {
 		bags := map[string]map[string][]string{}
 		failed := ""
 		for _, proto := range []string{"h1", "h2", "h3"} {
-			c, rq := c16BuildResend(tc, proto, func(*http.Request) {})
+			var legs []c16Leg
+			c, rq := c16BuildResend(tc, proto, func(req *http.Request) { legs = append(legs, c16SnapLeg(req)) })
 			peer.reset()
 			o2.reset()
 			o3.reset()
@@ -414,6 +419,21 @@ func TestVerif_C16_xproto(t *testing.T) {
 				break
 			}
 			bags[proto] = c16XBag(pairs)
+			if proto != "h1" && len(legs) == 1 {
+				// model-judged: what the origin's handler sees = the model's field list for the request handed to the transport
+				leg := legs[0]
+				var lines []string
+				for name, vs := range bags[proto] {
+					for _, v := range vs {
+						lines = append(lines, name+": "+v)
+					}
+				}
+				sort.Strings(lines)
+				line := "c16xbag " + proto + " " + verifh.Hex(leg.method) + " " + verifh.Hex(leg.url) + " " + verifh.Hex(leg.host) + " " + c01Hdr(leg.header) + " " +
+					strconv.FormatInt(leg.cl, 10) + " " + c01b(leg.hasBody) + " 0 0 -"
+				s.Case(line, "bag "+verifh.HexList(lines), true, "", true, proto+" origin: "+human)
+				s.Count("model-judged:" + proto)
+			}
 		}
 		if failed == "crash" {
 			continue
@@ -455,6 +475,6 @@ func TestVerif_C16_xproto(t *testing.T) {
 		}
 		s.Observe(id, ok, "", true, human, why)
 	}
-	s.Need(t, "three-wires")
+	s.Need(t, "three-wires", "model-judged:h2", "model-judged:h3")
 	s.Finish()
 }
